@@ -22,6 +22,8 @@ import Kanzi.Drv.SRT
 import Kanzi.Drv.CliPaths
 import Kanzi.Drv.ImageGen
 import Kanzi.Drv.Alias
+import Kanzi.Drv.LZP
+import Kanzi.Drv.FSD
 
 open Kanzi
 
@@ -192,5 +194,7 @@ def main (args : List String) : IO UInt32 := do
   | ["clipath"] => loop stdin stdout Kanzi.Drv.clipath; return 0
   | ["imagegen"] => loop stdin stdout Kanzi.Drv.imagegen; return 0
   | ["alias"] => loop stdin stdout Kanzi.Drv.alias; return 0
+  | ["lzp"] => loop stdin stdout Kanzi.Drv.lzp; return 0
+  | ["fsd"] => loop stdin stdout Kanzi.Drv.fsd; return 0
   | ["image"] => loop stdin stdout Kanzi.Drv.image; return 0
   | _ => IO.eprintln "usage: kmodel <norm>"; return 2
